@@ -30,7 +30,8 @@ EXC = {"KeyboardInterrupt": KeyboardInterrupt, "RuntimeError": RuntimeError, "Va
 class Rig:
     """one sampler configuration; builds fresh objects for every run"""
 
-    def __init__(self, rnd, sampler_kind, integ="lf", n=2, mkind="unit", P=4, t=1, ext="h5", d=2, diagnostic=False):
+    def __init__(self, rnd, sampler_kind, integ="lf", n=2, mkind="unit", P=4, t=1, ext="h5", d=2, diagnostic=False, progressbar=False):
+        self.progressbar = progressbar      # the default of sample(): the progress bar is updated and closed around every stop
         self.diagnostic = diagnostic        # diagnostic_mode=True: every call of user code goes through the sampler's timing wrappers
         self.kind, self.integ, self.n, self.mkind, self.P, self.t, self.ext, self.d = sampler_kind, integ, n, mkind, P, t, ext, d
         self.seed = rnd.randrange(1 << 30)
@@ -43,7 +44,7 @@ class Rig:
 
     def desc(self):
         return {"sampler": self.kind, "integrator": self.integ, "steps": self.n, "mass": self.mkind, "proposals": self.P, "thinning": self.t,
-                "backend": self.ext, "d": self.d, "seed": self.seed, "autotuning": self.autotune, "diagnostic_mode": self.diagnostic}
+                "backend": self.ext, "d": self.d, "seed": self.seed, "autotuning": self.autotune, "diagnostic_mode": self.diagnostic, "progressbar": self.progressbar}
 
     def build(self):
         _, S, MM, D = _hm()
@@ -127,7 +128,7 @@ class Rig:
         with quiet(), np.errstate(all="ignore"), ctx:
             try:
                 s.sample(fn, dist, initial_model=np.array(self.q0).reshape(-1, 1), proposals=proposals or self.P, online_thinning=self.t,
-                         overwrite_existing_file=True, disable_progressbar=True, max_time=max_time, **kw)
+                         overwrite_existing_file=True, disable_progressbar=not self.progressbar, max_time=max_time, **kw)
             except BaseException as e:  # noqa: B902 — the raised object is the observation
                 raised = e
         return s, raised
@@ -184,7 +185,8 @@ def read_file(fn, ext):
 
 def rigs(rnd, tier):
     out = [Rig(rnd, "RWMH", P=4, t=1, ext="h5"), Rig(rnd, "HMC", "lf", 2, "unit", P=3, t=1, ext="h5"), Rig(rnd, "RWMH", P=4, t=2, ext="npy"),
-           Rig(rnd, rnd.choice(["RWMH", "HMC"]), "lf", 1, "diag", P=3, t=rnd.choice([1, 3]), ext="h5", diagnostic=True)]
+           Rig(rnd, rnd.choice(["RWMH", "HMC"]), "lf", 1, "diag", P=3, t=rnd.choice([1, 3]), ext="h5", diagnostic=True),
+           Rig(rnd, rnd.choice(["RWMH", "HMC"]), "lf", 1, "unit", P=3, t=1, ext=rnd.choice(["h5", "npy"]), progressbar=True)]
     if tier == "thorough":
         out.append(Rig(rnd, "HMC", "3s", 2, "full", P=4, t=2, ext="npy", diagnostic=True))
         out.append(Rig(rnd, "RWMH", P=6, t=3, ext="npy", diagnostic=True))
